@@ -132,7 +132,7 @@ func specIsFirstData(op ws.OpCode) bool { return op < 8 && op != ws.OpContinuati
 //@   assigns nothing
 
 //@ func MessageState.UnsetBits
-//@   props C13
+//@   props C13 C15
 //@   requires [rsv] h.Rsv < 8 && h.OpCode < 16
 //@   ensures [first] specIsFirstData(h.OpCode) ==> result1 == nil && s.compressed == (h.Rsv&4 != 0) && result0.Rsv == h.Rsv&3
 //@   ensures [other] !specIsFirstData(h.OpCode) ==> s.compressed == old(s.compressed) && result0.Rsv == h.Rsv && (result1 != nil) == (h.Rsv&4 != 0)
@@ -301,7 +301,7 @@ func eqvOption(a, b httphead.Option) bool { return a.Equal(b) }
 //@   assigns nothing
 
 //@ func Extension.Negotiate
-//@   props C14
+//@   props C14 C15
 //@   requires [cfg] validConfig(n.Parameters)
 //@   ensures  [once]  old(n.accepted) ==> n.accepted && n.params == old(n.params)
 //@   ensures  [legal] n.accepted && !old(n.accepted) ==> err == nil && specLegal(n.Parameters, n.params)
@@ -360,7 +360,7 @@ func seqRead(p []byte, n, m int, src io.Reader, sp, tp int) bool {
 }
 
 //@ func suffixedReader.Read
-//@   props C12 C15
+//@   props C12 C15 C16
 //@   requires [inv]  invSuffixed(r) && (r.r != nil ==> streamOK(r.r)) && notPartOf(p, r)
 //@   ensures  [m]    0 <= iteInt(old(r.r) != nil, inPos(old(r.r))-old(inPos(r.r)), 0) && iteInt(old(r.r) != nil, inPos(old(r.r))-old(inPos(r.r)), 0) <= n && n <= len(p)
 //@   ensures  [seq]  seqRead(p, n, iteInt(old(r.r) != nil, inPos(old(r.r))-old(inPos(r.r)), 0), old(r.r), old(inPos(r.r)), old(r.pos))
@@ -408,7 +408,7 @@ func cbufByte(c *cbuf, j int) byte {
 //@   assigns c.n, c.err, c.buf, c.dst
 
 //@ func cbuf.Write
-//@   props C12
+//@   props C12 C16
 //@   requires [inv]    invCbuf(c) && notPartOf(p, c) && outLen(c.dst)+len(p) < 1<<60
 //@   ensures  [sticky] old(c.err) != nil ==> result0 == 0 && result1 == old(c.err) && outLen(c.dst) == old(outLen(c.dst)) && c.n == old(c.n) && c.buf == old(c.buf)
 //@   ensures  [ret]    old(c.err) == nil ==> result0 == len(p) && result1 == c.err
@@ -479,20 +479,20 @@ func cbufByte(c *cbuf, j int) byte {
 //@   assigns w.err, w.cbuf, w.c, stream(w.c)
 
 //@ func Writer.Write
-//@   props C12 C18
+//@   props C12 C18 C16
 //@   requires [c] w.c != nil
 //@   ensures [sticky] old(w.err) != nil ==> n == 0 && err == old(w.err) && w.err == old(w.err)
 //@   ensures [err]    err == w.err
 
 //@ func Writer.Flush
-//@   props C12
+//@   props C12 C16
 //@   requires [c] w.c != nil
 //@   ensures [sticky] old(w.err) != nil ==> result == old(w.err) && w.err == old(w.err)
 //@   ensures [tail]   result == nil ==> w.cbuf.buf == compressionTail
 //@   ensures [err]    result == w.err
 
 //@ func Writer.Close
-//@   props C12
+//@   props C12 C16
 //@   requires [c] w.c != nil
 //@   ensures [sticky] old(w.err) != nil ==> result == old(w.err) && w.err == old(w.err)
 //@   ensures [tail]   result == nil ==> w.cbuf.buf == compressionTail
@@ -526,7 +526,7 @@ func cbufByte(c *cbuf, j int) byte {
 //@   assigns r.err, r.src, (&r.sr).r, (&r.sr).pos, (&r.sr).rx, r.d, stream(r.d)
 
 //@ func Reader.Read
-//@   props C12 C18
+//@   props C12 C18 C15 C16
 //@   requires [d] r.d != nil
 //@   ensures [sticky] old(r.err) != nil ==> n == 0 && err == old(r.err) && r.err == old(r.err)
 
@@ -551,7 +551,7 @@ func sameHdrButRsvLen(a, b ws.Header) bool {
 }
 
 //@ func Helper.CompressFrameBuffer
-//@   props C12 C13
+//@   props C12 C13 C17
 //@   requires [hdr] f.Header.OpCode < 16 && f.Header.Rsv < 8
 //@   call Helper.CompressTo havoc
 //@   ensures [nonfinal] !f.Header.Fin ==> result1 != nil && result0.Header == f.Header && sameSlice(result0.Payload, f.Payload)
@@ -559,7 +559,7 @@ func sameHdrButRsvLen(a, b ws.Header) bool {
 //@   ensures [ok]   result1 == nil ==> result0.Header.Length == int64(len(result0.Payload)) && result0.Header.Rsv == f.Header.Rsv|byte(iteInt(specIsFirstData(f.Header.OpCode), 4, 0)) && f.Header.Rsv&4 == 0
 
 //@ func Helper.DecompressFrameBuffer
-//@   props C12 C13
+//@   props C12 C13 C15 C17
 //@   requires [hdr] f.Header.OpCode < 16 && f.Header.Rsv < 8
 //@   call Helper.DecompressTo havoc
 //@   ensures [nonfinal] !f.Header.Fin ==> result1 != nil && result0.Header == f.Header && sameSlice(result0.Payload, f.Payload)
